@@ -208,8 +208,8 @@ static std::string cmd_swrite(const std::vector<std::string> &args)
     const char *x = strstr(out.c_str(), "address 0x");
     if (x != NULL) { first = (unsigned)strtoul(x + 10, NULL, 16); }
     char buf[64];
-    // the message prints address / bytes_per_address; give the byte address back
-    snprintf(buf, sizeof(buf), "count=%d first=%x", count, first * util->bytes_per_address);
+    // first = what the message prints: address / bytes_per_address
+    snprintf(buf, sizeof(buf), "count=%d first=%x", count, first);
     res = std::string(buf) + " nz=" + dump_nonzero(&util->memory);
   }
   delete util;
